@@ -283,3 +283,19 @@ def m_index_range_pieces(ex, a, callee, canon):
     if j < i:
         j = i
     return Ptr([Bytes(seq_concat(*[p for p, _ in parts[i:j]]) if j > i else z3.Empty(SEQ))], 0)
+
+
+
+@model(r"^core::slice::<impl \[u8\]>::split_at$")
+def m_split_at_pieces(ex, a, callee, canon):
+    """split at a piece boundary of a concatenation (same boundary search as the range index above)"""
+    v = deref(a[0])
+    s = ex.bytes_of(v)
+    n = ex.seq_len(s)
+    mid = a[1].t
+    if not ex.decide(z3.ULE(mid, n)):
+        raise PathPanic("slice::split_at: mid > len")
+    rng = lambda lo, hi: Struct("Range", [Int(lo, "usize"), Int(hi, "usize")])
+    left = m_index_range_pieces(ex, [a[0], rng(z3.BitVecVal(0, 64), mid)], callee, canon)
+    right = m_index_range_pieces(ex, [a[0], rng(mid, n)], callee, canon)
+    return Struct("tuple", [left, right])
